@@ -11,7 +11,15 @@ void vr_free(void *p);
 #include "abti.h"
 #include "vr.h"
 static int vr_live;
-#if MODE == 0 || MODE == 3 || MODE == 4
+#if MODE == 6
+/* allocation-list step: generic 64-byte blocks */
+struct gblk { void *p_prev, *p_next; int payload[12]; };
+static struct gblk GB0, GB1, GB2, GB3, GB4; static int gused[5], gn;
+static struct gblk *gb(int k) { return k == 0 ? &GB0 : k == 1 ? &GB1 : k == 2 ? &GB2 : k == 3 ? &GB3 : &GB4; }
+int posix_memalign(void **p, size_t al, size_t sz) { int k = gn++; __CPROVER_assert(k < 5 && sz == 64, "arena: at most five 64-byte requests"); __CPROVER_assume(k < 5); gused[k] = 1; vr_live++; *p = gb(k); return 0; }
+void vr_free(void *p) { if (!p) return; int f = 0; for (int k = 0; k < 5; k++) if (p == (void *)gb(k)) { __CPROVER_assert(gused[k] == 1, "block released exactly once"); gused[k] = 2; f = 1; } __CPROVER_assert(f, "free() of an allocated block start"); vr_live--; }
+void *memset(void *d, int c, size_t n) { __CPROVER_assert(c == 0, "memset(0) on a fresh arena block"); return d; }
+#elif MODE == 0 || MODE == 3 || MODE == 4 || MODE == 5
 /* typed arena: for the fixed templates the parser's allocation requests come in a fixed order, so the n-th request gets a static
  * block of the right type (cbmc's untyped heap + realloc/memcpy make even "{1:2:3}" intractable: 23 GB, no verdict).  Every
  * request is <= 64 bytes (ABTU_malloc rounds to the cache line). */
@@ -22,7 +30,11 @@ struct b_lst { struct ahdr h; ABTD_affinity_list l; char pad[24]; };
 struct b_ptr { struct ahdr h; ABTD_affinity_id_list *p[2]; char pad[32]; };
 static struct b_lst B_LST; static struct b_idl B_IDL0, B_IDL1; static struct b_ids B_IDS0, B_IDS1; static struct b_ptr B_PTR;
 static int nreq, used[6];
+#if MODE == 5
+static void *blk(int k) { return k == 0 ? (void *)&B_LST : k == 1 ? (void *)&B_IDL0 : k == 2 ? (void *)&B_IDS0 : k == 3 ? (void *)&B_IDS1 : k == 4 ? (void *)&B_PTR : (void *)&B_IDL1; }
+#else
 static void *blk(int k) { return k == 0 ? (void *)&B_LST : k == 1 ? (void *)&B_IDL0 : k == 2 ? (void *)&B_IDS0 : k == 3 ? (void *)&B_PTR : k == 4 ? (void *)&B_IDL1 : (void *)&B_IDS1; }
+#endif
 int posix_memalign(void **p, size_t al, size_t sz)
 {
 #if MODE == 3
@@ -79,6 +91,35 @@ int main(void)
         VR_WITNESS("expansion does not fit in int");
     }
     VR_ASSERT(vr_live == 0, "everything allocated by the parser is released");
+#elif MODE == 6
+    /* the allocation list itself (list_calloc / list_realloc / list_free_all), which every error path of the parser relies on:
+     * build a list of n blocks, re-allocate a solver-chosen one (head, middle or tail), allocate one more, free everything */
+    alloc_list al = { NULL, NULL }; void *pl[3] = { 0, 0, 0 };
+    int n = nondet_int(); __CPROVER_assume(n >= 1 && n <= 3);
+    for (int i = 0; i < 3; i++) if (i < n) { int r0 = list_calloc(&al, 8, &pl[i]); VR_ASSERT(r0 == ABT_SUCCESS, "allocation succeeds"); ((int *)pl[i])[0] = 100 + i; }
+    int w = nondet_int(); __CPROVER_assume(w >= 0 && w < n);
+    int r1 = list_realloc(&al, 8, 16, &pl[w]);
+    VR_ASSERT(r1 == ABT_SUCCESS && ((int *)pl[w])[0] == 100 + w, "re-allocation keeps the contents");
+    void *extra; int r2 = list_calloc(&al, 8, &extra);
+    VR_ASSERT(r2 == ABT_SUCCESS, "allocation succeeds");
+    /* the list must reach every live block exactly once, forwards */
+    int cnt = 0; alloc_header *h = al.p_head, *prev = NULL;
+    for (int i = 0; i < 5; i++) if (h) { VR_ASSERT(h->p_prev == prev, "allocation list: p_prev consistent"); int live = 0; for (int k = 0; k < 5; k++) if ((void *)h == (void *)gb(k)) live = gused[k] == 1; VR_ASSERT(live, "allocation list links only live blocks (no freed block is written to or followed)"); cnt++; prev = h; h = h->p_next; }
+    VR_ASSERT(h == NULL && cnt == n + 1 && al.p_tail == prev, "allocation list holds every live block exactly once and p_tail is its last block");
+    list_free_all(al.p_head);
+    VR_ASSERT(vr_live == 0, "list_free_all releases every block");
+    if (w == n - 1 && n >= 2) VR_WITNESS("the tail block was re-allocated");
+    if (w == 0 && n >= 2) VR_WITNESS("the head block was re-allocated");
+#elif MODE == 5
+    /* "{a,b}" (two comma-separated intervals inside braces: the id array is re-allocated while it is the LAST block of the
+     * allocation list) through the whole ABTD_affinity_list_create; a, b single symbolic digits */
+    char s[6]; char a = nondet_char(), b = nondet_char(); __CPROVER_assume(a >= '0' && a <= '9' && b >= '0' && b <= '9');
+    s[0] = '{'; s[1] = a; s[2] = ','; s[3] = b; s[4] = '}'; s[5] = 0;
+    int r = ABTD_affinity_list_create(s, &L);
+    VR_ASSERT(r == ABT_SUCCESS && L->num == 1 && L->p_id_lists[0]->num == 2 && L->p_id_lists[0]->ids[0] == a - '0' && L->p_id_lists[0]->ids[1] == b - '0', "{a,b} is one id-list with the ids a, b");
+    if (r == ABT_SUCCESS) ABTD_affinity_list_free(L);
+    VR_ASSERT(vr_live == 0, "everything allocated by the parser is released (the allocation list reaches every block)");
+    VR_WITNESS("parsed");
 #elif MODE == 4
     /* "A:2:E": two id-lists {A}, {A+E} through the whole ABTD_affinity_list_create */
     char s[(ND + 1) + NDA + 1 + 6]; int p = 0; long long A, E;
